@@ -12,6 +12,7 @@ use minimq::{
     Buffers, ConfigBuilder, ConnectEvent, Connection, Error, Op, PeerError, PubError, Publication, QoS,
     ResourceError, Session, TopicFilter, Will,
 };
+use minimq::{Property, SubscriptionOptions};
 use std::cell::RefCell;
 use std::collections::VecDeque;
 use std::future::Future;
@@ -91,7 +92,7 @@ pub enum Pend {
 pub struct ConnIo {
     pub inbound: VecDeque<u8>,
     /// packets emitted by the broker with the number of their bytes not yet read
-    pub emitted: VecDeque<(SPacket, usize)>,
+    pub emitted: VecDeque<(SPacket, usize, usize)>,
     pub closed: bool,
     pub reads: u32,
     pub writes: u32,
@@ -227,6 +228,14 @@ impl Shared {
                     _ => buf.len(),
                 };
                 self.log(|| format!("  io c{} write {}/{} {}", c, n, buf.len(), mr::hex(&buf[..n])));
+                if n < buf.len() {
+                    if buf.len() >= 130 {
+                        self.oracle.reach(5);
+                    }
+                    if buf.len() > 65535 {
+                        self.oracle.reach(10);
+                    }
+                }
                 self.conns[c].bytes_out += n as u64;
                 self.progress += n as u64;
                 if self.keep_tx {
@@ -249,6 +258,9 @@ impl Shared {
             }
             A::Err => {
                 self.log(|| format!("  io c{} write error", c));
+                if self.oracle.half_written(c) {
+                    self.oracle.reach(19);
+                }
                 self.close_conn(c);
                 Poll::Ready(Err(ErrorKind::ConnectionReset))
             }
@@ -361,6 +373,9 @@ impl Shared {
                     *slot = self.conns[c].inbound.pop_front().unwrap();
                 }
                 self.log(|| format!("  io c{} read {} {}", c, n, mr::hex(&buf[..n])));
+                if n < avail && self.conns[c].emitted.front().is_some_and(|f| f.2 >= 130) {
+                    self.oracle.reach(6);
+                }
                 self.conns[c].bytes_in += n as u64;
                 self.progress += n as u64;
                 let mut left = n;
@@ -372,7 +387,7 @@ impl Shared {
                     front.1 -= take;
                     left -= take;
                     if front.1 == 0 {
-                        let (pkt, _) = self.conns[c].emitted.pop_front().unwrap();
+                        let (pkt, _, _) = self.conns[c].emitted.pop_front().unwrap();
                         self.log(|| format!("  client consumed {}", pkt.name()));
                         self.oracle.client_consumed(c, &pkt);
                     }
@@ -412,7 +427,7 @@ impl Shared {
         self.log(|| format!("  broker -> c{} {} {}", c, pkt.name(), mr::hex(&raw)));
         self.oracle.broker_emit(c, &pkt);
         self.conns[c].inbound.extend(raw.iter().copied());
-        self.conns[c].emitted.push_back((pkt, raw.len()));
+        self.conns[c].emitted.push_back((pkt, raw.len(), raw.len()));
     }
 
     fn push_raw(&mut self, c: usize, raw: &[u8]) {
@@ -552,8 +567,18 @@ impl Shared {
         let mut fail = 0u8;
         if self.explore() && self.cfg.broker.ack_fail && self.broker.can_fail(e) {
             // 0 = plain success, 1 = failure code, 2 = success with a non-zero reason (PUBACK / PUBREC 0x10)
-            let n = if self.broker.can_succeed_nonzero(e) { 3 } else { 2 };
+            // for SUBACK / UNSUBACK with several filters: 3 = only the first filter refused, 4 = only the last
+            let n = if self.broker.can_succeed_nonzero(e) {
+                3
+            } else if self.broker.filters_of(e) > 1 {
+                4
+            } else {
+                2
+            };
             fail = self.ch.choose(K_VARIANT, n, 0) as u8;
+            if n == 4 && fail >= 2 {
+                fail += 1;
+            }
         }
         let pkt = self.broker.emit(e, fail);
         self.push_inbound(c, pkt);
@@ -879,6 +904,8 @@ pub struct World<'v> {
     pub outcome_sig: u64,
     pub last_connect_failed: bool,
     pub need_reconnect_drain: bool,
+    /// chosen opening and position in it
+    pub prelude: Option<(usize, usize)>,
 }
 
 #[derive(Copy, Clone, PartialEq, Eq, Debug)]
@@ -908,6 +935,7 @@ pub struct RunResult {
     /// per cancelled operation: nothing of it was enqueued or offered
     pub cancelled_without_trace: Vec<bool>,
     pub final_state: Option<(bool, usize, usize, usize, usize, u16)>,
+    pub cover: u64,
 }
 
 struct ConnCtx {
@@ -969,6 +997,8 @@ impl<'v> World<'v> {
                 Some(PStep::EndConn) | None => None,
                 other => panic!("machinery: twin script out of step at connection level: {:?}", other),
             }
+        } else if let Some(op) = self.next_prelude_op() {
+            Some((op, false))
         } else {
             let pick = self.choose(K_CONN, menu.len() + 1);
             if pick == 0 { None } else { Some((menu[pick - 1], false)) }
@@ -980,7 +1010,27 @@ impl<'v> World<'v> {
         r
     }
 
+    /// Fixed opening of the first connection (`Cfg::preludes`): which one is a free choice, its
+    /// operations are not.
+    fn next_prelude_op(&mut self) -> Option<OpK> {
+        if self.cfg.preludes.is_empty() || self.conns_done > 1 {
+            return None;
+        }
+        if self.prelude.is_none() {
+            let k = self.choose(K_VARIANT, self.cfg.preludes.len());
+            self.log(|| format!("program: opening {}", k));
+            self.prelude = Some((k, 0));
+        }
+        let (k, pos) = self.prelude.unwrap();
+        let op = self.cfg.preludes[k].get(pos).copied();
+        if op.is_some() {
+            self.prelude = Some((k, pos + 1));
+        }
+        op
+    }
+
     fn decide_arg(&mut self, n: usize) -> usize {
+        // (arguments with a single possible value are recorded too, so that twin scripts line up)
         let i = if self.script.is_some() {
             let i = self.cur_args.pop_front().expect("machinery: twin script lacks an argument");
             assert!(i < n.max(1), "machinery: twin script argument out of range");
@@ -1206,6 +1256,7 @@ impl<'v> World<'v> {
         sh.conns.len().hash(h);
         self.ops_done.hash(h);
         self.conns_done.hash(h);
+        self.prelude.hash(h);
         self.reqs_done.hash(h);
         self.handles.len().hash(h);
         for hd in &self.handles {
@@ -1302,6 +1353,13 @@ impl<'v> World<'v> {
             let now_dead = peer_closed || res.fatal() || (op == OpK::Disconnect && matches!(res, Res::Ok | Res::Transport));
             if now_dead {
                 self.dead_since = Some(after);
+                let mut sh = self.sh.borrow_mut();
+                if res == Res::Disconnected && !peer_closed && !sh.conns[id].closed && self.cfg.keepalive > 0 {
+                    sh.oracle.reach(8);
+                    if sh.oracle.half_written(id) {
+                        sh.oracle.reach(9);
+                    }
+                }
             }
         }
         if self.dead_since.is_some() {
@@ -1415,6 +1473,12 @@ impl<'v> World<'v> {
                     let i = self.decide_arg(n);
                     self.cfg.pub_retain[i]
                 };
+                let shape_ix = {
+                    let n = self.cfg.pub_shapes.len();
+                    let i = self.decide_arg(n);
+                    self.cfg.pub_shapes[i]
+                };
+                let (topic, props, ref_props) = shape(shape_ix);
                 self.reqs_done += 1;
                 let (seq, payload) = if op == OpK::Pub0 {
                     (None, vec![0xEE; size.max(1)])
@@ -1423,14 +1487,30 @@ impl<'v> World<'v> {
                     let seq = self.sh.borrow_mut().oracle.new_request(kind, id);
                     (Some(seq), vec![seq; size.max(1)])
                 };
-                self.log(|| format!("api: {} (request {:?}, {} payload bytes)", op.name(), seq, payload.len()));
+                {
+                    let want = crate::oracle::Want {
+                        topic: topic.as_bytes().to_vec(),
+                        payload: payload.clone(),
+                        qos: qos as u8,
+                        retain,
+                        props: ref_props,
+                        filters: vec![],
+                    };
+                    let mut sh = self.sh.borrow_mut();
+                    match seq {
+                        Some(seq) => sh.oracle.set_want(seq, want),
+                        None => sh.oracle.wants_q0.push(want),
+                    }
+                }
+                self.log(|| {
+                    format!("api: {} (request {:?}, {} payload bytes, retain {}, shape {})", op.name(), seq, payload.len(), retain, shape_ix)
+                });
                 self.sh.borrow_mut().oracle.op_begin(op.name(), seq);
                 let retained0 = conn.session().verif_runtime().retained;
-                let publication = if retain {
-                    Publication::bytes("t", &payload).qos(qos).retain()
-                } else {
-                    Publication::bytes("t", &payload).qos(qos)
-                };
+                let mut publication = Publication::bytes(topic, &payload).qos(qos).properties(&props);
+                if retain {
+                    publication = publication.retain();
+                }
                 let r = self.drive(conn.publish(publication), Some(id), op != OpK::Pub0);
                 let retained1 = conn.session().verif_runtime().retained;
                 let res = match &r {
@@ -1468,14 +1548,43 @@ impl<'v> World<'v> {
                 let kind = if op == OpK::Sub { ReqKind::Sub } else { ReqKind::Unsub };
                 self.reqs_done += 1;
                 let seq = self.sh.borrow_mut().oracle.new_request(kind, id);
-                let filter = crate::oracle::filter_for(seq);
-                self.log(|| format!("api: {} (request {}, filter {})", op.name(), seq, filter));
+                let count = {
+                    let n = self.cfg.sub_counts.len();
+                    let i = self.decide_arg(n);
+                    self.cfg.sub_counts[i]
+                };
+                let names: Vec<String> = (0..count).map(|k| crate::oracle::filter_k(seq, k)).collect();
+                self.log(|| format!("api: {} (request {}, filters {:?})", op.name(), seq, names));
+                self.sh.borrow_mut().oracle.set_want(
+                    seq,
+                    crate::oracle::Want {
+                        topic: vec![],
+                        payload: vec![],
+                        qos: 0,
+                        retain: false,
+                        props: vec![],
+                        filters: names.iter().enumerate().map(|(k, f)| (f.as_bytes().to_vec(), (k % 3) as u8)).collect(),
+                    },
+                );
                 self.sh.borrow_mut().oracle.op_begin(op.name(), Some(seq));
                 let retained0 = conn.session().verif_runtime().retained;
                 let r = if op == OpK::Sub {
-                    self.drive(conn.subscribe(&[TopicFilter::new(&filter)], &[]), Some(id), true)
+                    let filters: Vec<TopicFilter<'_>> = names
+                        .iter()
+                        .enumerate()
+                        .map(|(k, f)| {
+                            let q = match k % 3 {
+                                0 => QoS::AtMostOnce,
+                                1 => QoS::AtLeastOnce,
+                                _ => QoS::ExactlyOnce,
+                            };
+                            TopicFilter::new(f).options(SubscriptionOptions::default().maximum_qos(q))
+                        })
+                        .collect();
+                    self.drive(conn.subscribe(&filters, &[]), Some(id), true)
                 } else {
-                    self.drive(conn.unsubscribe(&[&filter], &[]), Some(id), true)
+                    let refs: Vec<&str> = names.iter().map(|s| s.as_str()).collect();
+                    self.drive(conn.unsubscribe(&refs, &[]), Some(id), true)
                 };
                 let retained1 = conn.session().verif_runtime().retained;
                 let res = match &r {
@@ -1607,6 +1716,19 @@ impl<'v> World<'v> {
         };
         self.log(|| format!("api: {} -> {:?}", op.name(), res));
         self.results.push((op, res));
+        if res == Res::Cancelled {
+            let mut sh = self.sh.borrow_mut();
+            if sh.oracle.half_written(id) {
+                sh.oracle.reach(16);
+            }
+            // consumed 2..=3 bytes of a packet whose fixed header has 3 bytes: between its length bytes
+            if sh.conns[id].emitted.front().is_some_and(|f| f.2 >= 130 && f.2 - f.1 == 2) {
+                sh.oracle.reach(7);
+            }
+        }
+        if matches!(res, Res::NotReady) && matches!(op, OpK::Pub1 | OpK::Pub2) {
+            self.sh.borrow_mut().oracle.reach(13);
+        }
         if res == Res::Cancelled && !self.sh.borrow().last_cancel_forced {
             let seq = self.sh.borrow().oracle.cur_op.and_then(|c| c.1);
             self.cancelled.push((self.program.len() - 1, op, seq));
@@ -2063,6 +2185,7 @@ pub fn run_inner(
         outcome_sig: 0,
         last_connect_failed: false,
         need_reconnect_drain: false,
+        prelude: None,
     };
     let result = std::panic::catch_unwind(std::panic::AssertUnwindSafe(|| {
         let mut rx = vec![0u8; cfg.rx];
@@ -2075,13 +2198,31 @@ pub fn run_inner(
         if cfg.downgrade {
             builder = builder.autodowngrade_qos();
         }
-        if cfg.auth {
-            builder = builder.auth("user", b"pw").expect("auth");
-        }
-        if cfg.will {
+        let will_props = [
+            Property::UserProperty("origin", "mcx-harness"),
+            Property::ContentType("application/octet-stream"),
+            Property::MessageExpiryInterval(300),
+        ];
+        if cfg.big_connect {
             builder = builder
-                .will(Will::new("w", b"bye", &[]).expect("will").qos(QoS::AtLeastOnce))
+                .auth("a-user-name-of-forty-characters-in-total", &[0x5A; 48])
+                .expect("auth")
+                .will(
+                    Will::new("status/of/the/client/with/a/long/topic/name", &[0x77; 64], &will_props)
+                        .expect("will")
+                        .qos(QoS::AtLeastOnce)
+                        .retained(),
+                )
                 .expect("will");
+        } else {
+            if cfg.auth {
+                builder = builder.auth("user", b"pw").expect("auth");
+            }
+            if cfg.will {
+                builder = builder
+                    .will(Will::new("w", b"bye", &[]).expect("will").qos(QoS::AtLeastOnce))
+                    .expect("will");
+            }
         }
         let mut session = Session::new(builder);
         world.run_program(&mut session);
@@ -2114,6 +2255,7 @@ pub fn run_inner(
                     cancelled: Vec::new(),
                     cancelled_without_trace: Vec::new(),
                     final_state: None,
+                    cover: 0,
                 };
             }
         };
@@ -2161,6 +2303,11 @@ pub fn run_inner(
         })
         .collect();
     let tx: Vec<Vec<u8>> = shb.conns.iter().map(|c| c.tx_log.clone()).collect();
+    if let Some(i) = shb.oracle.witness {
+        if let Some(p) = shb.oracle.props.first().copied() {
+            shb.oracle.flag(p, "WITNESS", "situation", format!("reached: {}", crate::oracle::SITUATIONS[i]));
+        }
+    }
     RunResult {
         obs: std::mem::take(&mut shb.oracle.obs),
         results: std::mem::take(&mut world.results),
@@ -2169,6 +2316,7 @@ pub fn run_inner(
         cancelled: std::mem::take(&mut world.cancelled),
         cancelled_without_trace,
         final_state: world.final_state,
+        cover: shb.oracle.cover,
         points: std::mem::take(&mut shb.ch.points),
         violations: std::mem::take(&mut shb.oracle.viol),
         trace: shb.trace.take(),
@@ -2199,4 +2347,32 @@ fn panic_class(text: &str) -> String {
         .map(|c| if c.is_ascii_alphanumeric() { c } else { '_' })
         .collect();
     t
+}
+
+
+const LONG_TOPIC: &str = "long/aaaaaaaaaaaaaaaaaaaaaaaaaaaaaaaaaaaaaaaaaaaaaaaaaaaaaaaaaaaaaaaaaaaaaaaaaaaaaaaaaaaaaaaaaaaaaaaaaaaaaaaaaaaaaaaaaaaaaaaaaaaaaaaaaaaaaaaaaa";
+
+/// Publish shapes (`Cfg::pub_shapes`): topic, properties as the application passes them, and the same
+/// properties in the reference codec's terms.
+pub fn shape(i: u8) -> (&'static str, Vec<Property<'static>>, Vec<mr::Prop>) {
+    use mr::{PVal, Prop};
+    match i {
+        0 => ("t", vec![], vec![]),
+        1 => (
+            "rich/topic/with/levels",
+            vec![
+                Property::UserProperty("k", "v"),
+                Property::CorrelationData(b"cd-1"),
+                Property::ContentType("x/y"),
+                Property::UserProperty("k", "w"),
+            ],
+            vec![
+                Prop { id: 0x26, val: PVal::Pair(b"k".to_vec(), b"v".to_vec()) },
+                Prop { id: 0x09, val: PVal::Bin(b"cd-1".to_vec()) },
+                Prop { id: 0x03, val: PVal::Str(b"x/y".to_vec()) },
+                Prop { id: 0x26, val: PVal::Pair(b"k".to_vec(), b"w".to_vec()) },
+            ],
+        ),
+        _ => (LONG_TOPIC, vec![], vec![]),
+    }
 }
